@@ -26,8 +26,12 @@ MAIN_RULES = [
     ("r4", "$", ("seq", (("str", "a"), ("plus", ("id", "r1")), ("opt", ("id", "r3"))))),
     ("r5", "_", ("seq", (("str", "a"), ("exact", ("str", "b"), 2), ("id", "EOI")))),
     ("r6", "", ("seq", (("id", "SOI"), ("min", ("id", "r1"), 1), ("id", "EOI")))),
+    # skip-until shapes (what the optimizer's skip pass rewrites where no implicit trivia can occur)
+    ("r7", "", ("seq", (("str", "a"), ("star", ("grp", ("seq", (("not", ("str", "c")), ("id", "ANY"))))), ("opt", ("str", "c"))))),
+    ("r8", "@", ("seq", (("str", "a"), ("id", "r9")))),
+    ("r9", "!", ("seq", (("star", ("grp", ("seq", (("not", ("grp", ("alt", (("str", "c"), ("str", "bc"))))), ("id", "ANY"))))), ("opt", ("id", "r1"))))),
 ]
-MAIN_STARTS = ["r0", "r2", "r4", "r5", "r6"]
+MAIN_STARTS = ["r0", "r2", "r4", "r5", "r6", "r7", "r8"]
 BASES = ["a", "ab", "abb", "abbc", "abc", "bb"]
 WS_PIECES = {
     ("str", " "): [" "],
@@ -37,6 +41,7 @@ WS_PIECES = {
     ("id", "ws__"): [" ", "\t"],
     ("seq", (("str", " "), ("str", "\t"))): [" \t", " "],
     ("seq", (("str", " "), ("opt", ("str", "\t")))): [" ", " \t", "\t"],
+    ("alt", (("str", " "), ("str", "\t"), ("id", "NEWLINE"))): [" ", "\n", "\r\n", "\r"],
 }
 CM_PIECES = ["#", "# #"], ["/**/", "/*x*/", "/*"], ["#", "#x", "#x\n"], ["<ab>", "<>", "<a"], ["/*c*/", "/**/", "/*"], [" #", "#", " "]
 
